@@ -44,19 +44,27 @@ contract("monkeytype.encoding:serialize_traces", props=["C09"], theories=TH,
 _VAL = ("len(nth(values, j)) == 6 and nth(nth(values, j), 1) is nth({rows}, j).module and nth(nth(values, j), 2) is nth({rows}, j).qualname"
         " and nth(nth(values, j), 3) is nth({rows}, j).arg_types and nth(nth(values, j), 4) is nth({rows}, j).return_type"
         " and nth(nth(values, j), 5) is nth({rows}, j).yield_type")
+_PRE = "ite(conn_in_txn(self.conn, old(effects())), append(old(effects()), tup('rollback', self.conn)), old(effects()))"
+contract("monkeytype.db.sqlite:SQLiteStore._discard_failed_transaction", props=["C09"], theories=TH, pure=False, effects="sql",
+         params={"self": "SQLiteStore"}, result="none",
+         # a transaction an earlier, failed operation left open is rolled back - never committed by what follows; otherwise nothing happens
+         ensures={"post:discarded": "effects() is " + _PRE},
+         ensures_exc={"exc:nothing": "effects() is old(effects()) and conn_in_txn(self.conn, old(effects()))"},
+         raises={"sqlite3.Error": None})
+
 contract("monkeytype.db.sqlite:SQLiteStore.add", props=["C09"], theories=TH, pure=False, effects="sql",
          params={"self": "SQLiteStore", "traces": "Seq[Trace]"}, result="none",
          ensures={
              # all of the batch's serialisable traces, in one transaction containing one executemany, nothing else written
              "post:one-transaction": "len(effects()) == len(old(effects())) + 3 and seq_prefix(effects(), len(old(effects()))) is_prefix_of old(effects())"
              if False else
-             "effects() is append(append(append(old(effects()), tup('begin', self.conn)),"
+             "effects() is append(append(append(" + _PRE + ", tup('begin', self.conn)),"
              " tup('executemany', self.conn, boxs(last_stmt()), last_params())), tup('commit', self.conn))",
              "post:statement": "sql_is_insert(last_stmt(), self.table, 6)",
              "post:batch-size": "len(last_params()) == len(SER(traces, len(traces)))",
              "post:batch-rows": "forall(range_(0, len(last_params())), lambda j: " + _VAL.format(rows="SER(traces, len(traces))").replace("values", "last_params()") + ")",
          },
-         ensures_exc={"exc:rolled-back": "effects() is append(append(old(effects()), tup('begin', self.conn)), tup('rollback', self.conn))"},
+         ensures_exc={"exc:rolled-back": "effects() is append(append(" + _PRE + ", tup('begin', self.conn)), tup('rollback', self.conn)) or (conn_in_txn(self.conn, old(effects())) and effects() is old(effects()))"},
          raises={"sqlite3.Error": None},
          loops={0: {"iter": "serialize_traces(traces)",
                     "inv": {"len": "len(values) == _i",
@@ -74,7 +82,7 @@ contract("monkeytype.db.sqlite:SQLiteStore.filter", props=["C09", "C14"], theori
          lets={"q": "make_query(unboxs(self.table), module, qualname_prefix, limit)"},
          ensures={
              # one read transaction executing exactly the query make_query builds for (table, m, p, n) ...
-             "post:query": "effects() is append(append(append(old(effects()), tup('begin', self.conn)),"
+             "post:query": "effects() is append(append(append(" + _PRE + ", tup('begin', self.conn)),"
                            " tup('execute', self.conn, nth(q, 0), nth(q, 1))), tup('commit', self.conn))",
              # ... and the result is its rows, one thunk per row, fields in column order
              "post:count": "len(result) == len(fetched(L_ghost_eff_at_fetch))",
@@ -106,7 +114,8 @@ contract("monkeytype.db.sqlite:SQLiteStore.list_modules", props=["C09"], theorie
          params={"self": "SQLiteStore"}, result="Seq[str]",
          ensures={
              # one read transaction running SELECT module FROM <table> GROUP BY module: no WHERE / LIMIT, so every stored row's module takes part, each once
-             "post:transaction": "len(effects()) == len(old(effects())) + 3 and nth(effects(), len(old(effects()))) is tup('begin', self.conn) and last_effect_() is tup('commit', self.conn)",
+             "post:transaction": "len(effects()) == len(" + _PRE + ") + 3 and nth(effects(), len(" + _PRE + ")) is tup('begin', self.conn) and last_effect_() is tup('commit', self.conn)"
+                                 " and forall(range_(0, len(" + _PRE + ")), lambda q: nth(effects(), q) is nth(" + _PRE + ", q))",
              "post:columns": "sql_columns(last_stmt()) == ['module']",
              "post:all-rows-distinct-modules": "sql_no_where(last_stmt()) and sql_distinct_rows(last_stmt())",
              "post:table": "sql_table_is(last_stmt(), unboxs(self.table))",
